@@ -21,8 +21,8 @@ RULE = ('grammar class: 2-6 ledger processes with coincident interval ends (dyad
         'of the insertion order of processes, steps, flow, topology (and ports inside), initial_state; '
         'non-trivial = grammar: >=2 instants with >=2 processes invoked together; permutation: >=2 processes and '
         '>=3 rows and at least one permutation that differs from the listed order; distinct = distinct case spec')
-PLAN = {'quick': {'n': 2400, 'min_cases': 500}, 'thorough': {'n': 80000, 'min_cases': 8000}}
-REQUIRED_ORACLES = ['no_apply_between_invocations', 'same_snapshot_per_instant', 'snapshot_is_committed_state',
+PLAN = {'quick': {'n': 6000, 'min_cases': 500}, 'thorough': {'n': 80000, 'min_cases': 8000}}
+REQUIRED_ORACLES = ['no_apply_between_invocations', 'same_snapshot_per_instant', 'same_snapshot_per_layer', 'snapshot_is_committed_state',
                     'permutation_invariant']
 ANCHORS = ['vivarium.core.engine:Engine.run_for', 'vivarium.core.engine:Engine.run_steps',
            'vivarium.core.engine:_StepGraph.get_execution_layers', 'vivarium.core.engine:Engine._process_state',
@@ -37,7 +37,8 @@ def gen(r, tier, i):
         procs = [{'pid': pid, 'ts': {'kind': 'const', 'v': r.choice([0.5, 0.5, 1.0, 1.0, 1.5, 2.0, 0.25])},
                   'shared_acc': True, 'amount': pid + 1} for pid in range(n)]
         calls = sched.cap_events(r, procs, sched.gen_calls(r, 'dyadic', None, maxcalls=4), 'dyadic', None, cap=160)
-        return {'class': 'grammar', 'procs': procs, 'calls': calls, 'nsteps': r.randint(0, 3), 't0': 0}
+        return {'class': 'grammar', 'procs': procs, 'calls': calls, 'nsteps': r.randint(0, 4), 't0': 0,
+                'step_flow': r.choice(['layer', 'layer', 'none'])}
     n = r.randint(2, 5)
     ns = r.randint(0, 4)
     return {'class': 'perm',
@@ -63,8 +64,16 @@ def run_grammar(spec, V):
     group = []                # invocations since the last clock assignment / emit
     together = 0
 
+    layers_seen = 0
+
     def close(group):
-        nonlocal together
+        nonlocal together, layers_seen
+        steps = [g for g in group if g[0] == 'step']
+        if spec.get('step_flow') == 'layer' and len(steps) >= 2:
+            layers_seen += 1
+            V.check('same_snapshot_per_layer', len({g[2] for g in steps}) == 1,
+                    lambda: ('steps of one dependency layer saw different states at t=%r (an update was applied between their invocations)' % steps[0][1],
+                             [(g[3], len(g[2])) for g in steps]))
         procs = [g for g in group if g[0] == 'process']
         if len(procs) >= 2:
             together += 1
@@ -99,7 +108,7 @@ def run_grammar(spec, V):
             else:
                 group.append(('step', t, tuple(seen), tok[0]))
     close(group)
-    return {'instants_with_several': together}, together >= 2, ['grammar']
+    return {'instants_with_several': together, 'step_layers_with_several': layers_seen}, together >= 2, ['grammar', 'steps_' + str(spec.get('step_flow'))]
 
 
 def shuffled(d, r):
